@@ -52,7 +52,7 @@ func runC19(c *Ctx) {
 		}
 	}
 	for _, u := range upOf {
-		b.Up[u].Hook = hook
+		b.Up[u].SetHook(hook)
 	}
 	type key struct {
 		name    string
